@@ -192,7 +192,9 @@ def main():
                                 spec_fn = f_
                     if spec_fn is not None and not spec_fn.cover:
                         continue
-                    if v is None or not v.get("cover_hit"):
+                    # vacuous iff the twin *verifies* (assert(false) provable); a twin that fails -- at the injected
+                    # assert or by exhausting resources while trying to prove false -- shows the context is consistent
+                    if v is None or v.get("status") in ("verified", "verified-trivially"):
                         # only a problem if the real obligation was counted as verified
                         vac.append(f"{n}::{mod}::{fm['fn']}")
 
